@@ -14,6 +14,7 @@ import (
 	"time"
 
 	"github.com/IrineSistiana/mosproxy/internal/upstream"
+	"github.com/IrineSistiana/mosproxy/internal/upstream/transport"
 	"github.com/miekg/dns"
 )
 
@@ -232,6 +233,48 @@ func modeLife(thorough bool) {
 				continue
 			}
 			lifeScenario(k, w, rng)
+		}
+	}
+	rounds := 250
+	if thorough {
+		rounds = 1500
+	}
+	idleCloseRace(rounds, rng)
+}
+
+// idleCloseRace: a one-at-a-time transport with eight idle connections whose idle timers (20 ms) fire while Close
+// is called, a few hundred times with the moment of Close moved around the expiry: Close returns
+func idleCloseRace(rounds int, rng *rand.Rand) {
+	s := newServer("ic", func(ex int, proto string) behaviour { return behaviour{} }, false, true)
+	defer s.close()
+	for r := 0; r < rounds; r++ {
+		sc := fmt.Sprintf("tcp/idlerace%d", r)
+		t := transport.NewReuseConnTransport(transport.ReuseConnOpts{DialContext: dialer("tcp", s.addr), IdleTimeout: 20 * time.Millisecond, DialTimeout: time.Second})
+		var wg sync.WaitGroup
+		for i := 0; i < 8; i++ {
+			wg.Add(1)
+			go func() {
+				defer wg.Done()
+				q := new(dns.Msg)
+				q.SetQuestion(exName(int(exCtr.Add(1))), dns.TypeA)
+				w, _ := q.Pack()
+				ctx, cancel := context.WithTimeout(context.Background(), time.Second)
+				defer cancel()
+				if m, err := t.ExchangeContext(ctx, w); err == nil {
+					releaseMsg(m)
+				}
+			}()
+		}
+		wg.Wait()
+		time.Sleep(17*time.Millisecond + time.Duration(rng.Intn(6000))*time.Microsecond)
+		tr.Emit("close.begin", "sc", sc, "n", 1)
+		done := make(chan struct{})
+		go func() { t.Close(); close(done) }()
+		select {
+		case <-done:
+			tr.Emit("close.end", "sc", sc, "n", 1, "panic", "", "returned", true)
+		case <-time.After(3 * time.Second):
+			tr.Emit("close.end", "sc", sc, "n", 1, "panic", "", "returned", false)
 		}
 	}
 }
